@@ -105,6 +105,16 @@ def configs(tier, seed):
             c["refused_before"] = sorted({0, len(c["subs"])} if k % 8 == 2 else {len(c["subs"]) // 2})
         if k % 5 == 3 and len(c["subs"]) >= 2:
             c["elab_before"] = [len(c["subs"]) - 1]
+    # subordinates whose OWN memory map has an alignment (ratio-1 windows): the window is still a block of 2**width addresses at a
+    # multiple of its size, whatever alignment the subordinate uses inside
+    for sal in (1, 2, 3):
+        cfgs.append({"aw": 6, "dw": 8, "g": 8, "feat": [], "align": 0,
+                     "subs": [{"aw": 2, "feat": [], "sparse": False, "name": "a", "addr": None},
+                              {"aw": 4, "feat": [], "sparse": False, "name": "b", "addr": None, "salign": sal},
+                              {"aw": 3, "feat": [], "sparse": False, "name": None, "addr": None, "salign": sal - 1}]})
+        cfgs.append({"aw": 5, "dw": 32, "g": 8, "feat": ["err"], "align": 0,
+                     "subs": [{"aw": 0, "feat": [], "sparse": False, "name": "a", "addr": None},
+                              {"aw": 2, "feat": ["err"], "sparse": False, "name": "b", "addr": None, "salign": sal}]})
     # directed: an add() refused for a taken window NAME (k % 4 == 2) and the same subordinate added twice (k % 4 == 3), in the
     # middle and at the end of the history
     sub = lambda i, feat=(): {"aw": i % 2, "feat": list(feat), "sparse": False, "name": f"n{i}", "addr": None}
